@@ -221,6 +221,54 @@ def run(ctx):
         guards[tag] = found
     ctx.check(guards["builder"] == guards["parser"] and len(guards["builder"]) == 1, "ep-rank-guard-agrees",
               "the en-passant square rank guard differs between builder and parser: %s" % guards, sample={"guard": sorted(guards["builder"])})
+    # a stage may refuse its field for what the field says (text that does not parse, a value out of range), for what
+    # its validator says, and -- like the en-passant rank above -- for how the field sits with another part of the
+    # position.  Refusals of the last kind must exist on both sides alike: a parser stage that also looks at another
+    # field (say: "no en-passant square with a running half-move clock") rejects records whose builder states build.
+    ctx.rule("cross-field-refusals-agree")
+    OWN = {"castling": {"castle_rights"}, "ep": {"en_passant"}, "half": {"halfmove_clock"}, "full": {"fullmove_number"},
+           "placement": {"colors", "pieces", "side_to_move", "occupied", "piece_on", "color_on", "king", "colored_pieces"},
+           "side": {"side_to_move", "colors", "pieces"}}
+    ncmp = 0
+    for kind in ("castling", "ep", "half", "full"):
+        sides = {}
+        for ctor, tag in ((BUILDER + "::build", "builder"), (B + "::from_fen", "parser")):
+            try:
+                name = g.stage_for(ctor, kind)
+            except Exception:
+                sides = None
+                break          # the field is filled in the constructor's own body: not read by this rule
+            b0 = f.need(name)
+            ps0 = sym.SymExec(f, b0, inline=lambda n: False if g.validator_role(n) is not None else None).run()
+            found = set()
+            for p0 in ps0:
+                if not (g.path_fails(name, p0) and p0.conds):
+                    continue
+                # the decisions the refusal rests on: those taken after the last call or assignment of the path (one
+                # compound condition, `a && b`, is a run of decisions with nothing in between)
+                k0 = max([e_.ncond for e_ in p0.events] + [0])
+                trail = p0.conds[k0:] or p0.conds[-1:]
+                reads = set()
+                skip = False
+                for c0 in trail:
+                    e0 = L.lift(c0[0])
+                    if sym.contains(e0, lambda y: y[0] == "call" and g.validator_role(y[1]) is not None):
+                        skip = True
+                    for t0 in sym.subterms(e0, lambda y: y[0] in ("get", "king", "piece_on", "color_on") and isinstance(y[1] if y[0] == "get" else y[0], str)):
+                        reads.add(t0[1] if t0[0] == "get" else t0[0])
+                if skip:
+                    continue
+                reads -= OWN.get(kind, set())
+                if reads:
+                    found.add(tuple(sorted(reads)))
+            sides[tag] = found
+        if sides is None:
+            continue
+        ncmp += 1
+        ctx.check(sides["builder"] == sides["parser"], "cross-field-refusals-agree:%s" % kind,
+                  "the %s stage refuses its field for how it sits with other parts of the position in one constructor only: parser looks at %s, builder at %s"
+                  % (kind, sorted(sides["parser"]), sorted(sides["builder"])), sample={"field": kind, "looks at": sorted(sides["parser"])})
+    ctx.floor("fields compared for cross-field refusals", ncmp, 2)
     ctx.rule("from_board-total")
     fb = f.need(BUILDER + "::from_board")
     ps = sym.SymExec(f, fb).run()
